@@ -115,11 +115,58 @@ def o3(h, st):
 
 
 PROPERTY = {
-    "level": "exploration",
-    "explanation": "Numerical tensors produced by PySCF solvers and simulated measurements: outside the verifier's reach. Bounded native contract runs with an independent check of energy, "
+    "level": "other",
+    "explanation": "Deductive part: energy_from_rdms is proved to be the chemist-ordered contraction E_core + sum h gamma + 1/2 sum (pq|rs) Gamma for EVERY pair of RDMs (symbolic entries; the "
+                   "index transposition is the point), against independently computed PySCF integrals. Numerical tensors produced by PySCF solvers and simulated measurements: outside the verifier's reach. Bounded native contract runs with an independent check of energy, "
                    "Hermiticity, traces, padding and - the one frame condition of the property - bit-identity of the arrays passed to the padding functions.",
     "bounds": {"quick": "H2, H4 (frozen none / [0] / [0,3]), LiH (frozen core / non-contiguous), H4+ ROHF and UHF x FCI / CCSD / MP2 (about half); VQE-UCCSD on H2 in 4 encodings", "thorough": "all, plus H4 VQE"},
     "assumptions": ["PySCF solvers, cirq simulation; tolerance 1e-6"],
     "trusted_base": ["pyscf", "numpy", "cirq", "tverif AST interpreter only for the Tangelo-side functions it can execute"],
-    "technique": "bounded native contract checking (run-time pre/post-conditions and frame check by array snapshots); not a proof",
+    "technique": "contract-based deductive verification of the energy contraction (AST symbolic execution over symbolic RDM entries); bounded native contract checking (run-time post-conditions, frame by array snapshots) for solver outputs",
 }
+
+
+@contract("C13", "O2.energy_from_rdms.linear_form", level="S", structures=lambda tier: [{"mol": "H2", "frozen": None}, {"mol": "H4", "frozen": [0, 3]}],
+          native_samples=lambda st, rnd, tier: [{**{f"g{p}{q}": rnd.uniform(-1, 1) for p in range(2) for q in range(2)}, **{f"G{p}{q}{r}{s}": rnd.uniform(-1, 1) for p in range(2) for q in range(2) for r in range(2) for s in range(2)}}],
+          targets=[(ML, "SecondQuantizedMolecule.energy_from_rdms"), (RD, "energy_from_rdms")])
+def o2(h, st):
+    """for EVERY pair of RDMs (symbolic entries, 2 active orbitals): energy_from_rdms == E_core + sum_pq h_pq gamma_pq + 1/2 sum_pqrs (pq|rs) Gamma_pqrs with the
+    chemist-ordered integrals (pq|rs) computed independently with PySCF (the index transposition of the openfermion-ordered tensor is the point); the function form
+    taking a fermionic operator agrees"""
+    import numpy as np
+    from pyscf import ao2mo
+    from tverif.ring import Poly
+    mol = get_mol(st["mol"], st["frozen"])
+    act = mol.active_mos
+    n = len(act)
+    g1 = np.empty((n, n), dtype=object)
+    g2 = np.empty((n, n, n, n), dtype=object)
+    for p in range(n):
+        for q in range(n):
+            g1[p, q] = h.real(f"g{p}{q}")
+            for r in range(n):
+                for s in range(n):
+                    g2[p, q, r, s] = h.real(f"G{p}{q}{r}{s}")
+    if not h.symbolic:
+        g1, g2 = g1.astype(float), g2.astype(float)
+    e = h.call(ML, "SecondQuantizedMolecule.energy_from_rdms", mol, g1, g2)
+    # independent integrals: core constant and one-body part from Tangelo's folding, two-body part from PySCF in chemist order
+    core, h1, _ = mol.get_active_space_integrals()
+    C = mol.mo_coeff[:, act]
+    from tangelo.toolboxes.molecular_computation.integral_solver_pyscf import mol_to_pyscf
+    eri = ao2mo.restore(1, ao2mo.kernel(mol_to_pyscf(mol, mol.basis), C), n)     # (pq|rs)
+    ref = core
+    for p in range(n):
+        for q in range(n):
+            ref = ref + h1[p, q] * g1[p, q]
+            for r in range(n):
+                for s in range(n):
+                    ref = ref + 0.5 * eri[p, q, r, s] * g2[p, q, r, s]
+    if h.symbolic:
+        d = Poly._coerce(e) - Poly._coerce(ref)
+        lf = d.linear_form()
+        worst = max([abs(float(v)) for v in lf[0].values()] + [abs(float(lf[1]))]) if lf is not None else None
+        h.check("energy_from_rdms is the stated linear form in the RDM entries (coefficients agree to 1e-9)", lf is not None and worst < 1e-9, detail=f"largest coefficient difference {worst}")
+    else:
+        h.check("energy_from_rdms equals the stated contraction", abs(e - ref) < 1e-9, detail=f"{e} vs {ref}")
+    h.done()
